@@ -767,9 +767,20 @@ def spelling_cases():
     return cases
 
 
+def corpus_cases():
+    """hand-made edge cases of the theorems' hypotheses and of past disagreements (corpus/C06/*.json)"""
+    import glob, os
+    here = os.path.dirname(os.path.dirname(os.path.dirname(os.path.abspath(__file__))))
+    out = []
+    for path in sorted(glob.glob(os.path.join(here, 'corpus', 'C06', '*.json'))):
+        with open(path) as f:
+            out.extend(json.load(f))
+    return out
+
+
 def fixed_shard(arg):
     res = Result()
-    cases = spelling_cases()
+    cases = corpus_cases() + spelling_cases()
     reals = []
     for c in cases:
         res.evaluations += 1
@@ -821,7 +832,7 @@ def exhaustive_shard(arg):
 
 def run(ctx):
     nsh = 16
-    per = ctx.n(1800, 25000)
+    per = ctx.n(3000, 25000)
     res = Result()
     for r in pmap('harness.props.c06', 'shard', [(ctx.seed, i, per) for i in range(nsh)]):
         res.merge(r)
